@@ -113,7 +113,7 @@ def fixture():
         "bdict": {"X": "fill", "Y": "extend"}, "fdict": {"X": 1.0, "Y": 2.0}, "todict": {"X": "left", "Y": "left"},
         "mwdict": {"X": ("X",)}, "bw": {"X": (1, 1)}, "target": np.array([1.0, 2.5, 4.0, 6.0]), "bins": np.array([0.0, 2.0, 5.0, 8.0]),
         "c_coords": {"X": {"center": "xc", "left": "xl"}, "Y": {"center": "yc", "left": "yl"}},
-        "c_boundary": {"X": "fill"}, "c_fill": {"Y": 3.0}, "c_periodic": ["Y"], "c_metrics": {("X",): ["dx_c", "dx_l"], ("Y",): ["dy_c"]},
+        "c_boundary": {"X": "fill"}, "c_boundary_full": {"X": None, "Y": "extend"}, "c_fill": {"Y": 3.0}, "c_periodic": ["Y"], "c_metrics": {("X",): ["dx_c", "dx_l"], ("Y",): ["dy_c"]},
         "c_shifts": {"X": {"center": "left"}},
         "c_fc": {"face": {0: {"X": (None, (1, "Y", False))}, 1: {"Y": ((0, "X", False), None)}}},
         "c_fcoords": {"X": {"center": "x", "left": "xg"}, "Y": {"center": "y", "left": "yg"}},
@@ -146,12 +146,19 @@ def catalogue():
                       autoparse_metadata=False)
         return grid_settings(g)
 
+    def ctor_full(e):
+        # a boundary mapping that names every axis, one of them with None ("nothing chosen for this one")
+        o = e["objs"]
+        g = xgcm.Grid(o["ds"], coords=o["c_coords"], periodic=False, boundary=o["c_boundary_full"], autoparse_metadata=False)
+        return grid_settings(g)
+
     def ctor_autoparse(e):
         g = xgcm.Grid(e["objs"]["dsc"], periodic=False)
         return grid_settings(g)
 
     C = {
         "ctor_autoparse": ctor_autoparse,
+        "ctor_full": ctor_full,
         "diff_multi": lambda e: e["G"].diff(e["objs"]["da"], ["X", "Y"], to=e["objs"]["todict"], boundary=e["objs"]["bdict"], fill_value=e["objs"]["fdict"]),
         "interp_str": lambda e: e["G"].interp(e["objs"]["da"], "X"),
         "max_extend": lambda e: e["G"].max(e["objs"]["da"], ["Y"], boundary="extend"),
